@@ -143,7 +143,7 @@ META.update({
     "C12": {
         "text": "PARTIAL (programs quantifier by corpus). For every history of create/build/insert/remove/clone/snapshot/drop in any order: an owned mapping is mapped iff some live handle reaches it, is unmapped exactly once when the last owner goes, "
                 "external mappings are never unmapped, no live handle designates an unmapped resource (13 theorems incl. reachable_inv over all histories). Tied by histories on file-backed regions over uniquely named files with /proc/self/maps read after every step "
-                "and every live handle re-read. The 'must not compile' half is decided by a corpus of 23 escaping-accessor programs + 6 controls compiled against /repo.",
+                "and every live handle re-read. The 'must not compile' half is decided by a corpus of 32 escaping-accessor programs + 8 controls compiled against /repo.",
         "design_ref": "DESIGN.md 6/C12", "note": PROOF_NOTE + "No Lean model of the borrow checker: the corpus is a test, labelled as such.",
         "technique": "Lean 4 ownership invariant over all histories + /proc/self/maps differential run + compile-fail corpus",
     },
